@@ -17,12 +17,28 @@ import ast
 import warnings
 from types import FunctionType, CodeType
 from inspect import signature, getsource, getsourcefile, findsource
-from textwrap import dedent, indent
+from textwrap import indent
 import dis
 from modelx.core.base import (
     LazyEval, get_mixin_slots, Interface)
 
 import asttokens
+
+
+def dedent(src: str):
+    """Remove the indentation of the first code line from every line
+
+    Unlike textwrap.dedent, comment lines indented less than the code
+    (e.g. at column 0 inside an indented function) do not prevent dedenting.
+    """
+    lines = src.splitlines(True)
+    first = next((l for l in lines
+                  if l.strip() and not l.lstrip().startswith("#")), "")
+    margin = first[:len(first) - len(first.lstrip())]
+    return "".join(
+        (l[len(margin):] if l.startswith(margin) else l)
+        if l.strip() else l.lstrip(" \t")
+        for l in lines)
 
 
 def create_closure(new_value):
